@@ -342,7 +342,7 @@ func (vc *VC) Discharge(obls []*Obligation, workDir string, quickMs, slowMs int)
 		wg.Add(1)
 		go func(idxs []int) {
 			defer wg.Done()
-			if len(idxs) > 1 && !vc.crossCheck {
+			if len(idxs) > 1 {
 				var goals []string
 				for _, i := range idxs {
 					goals = append(goals, obls[i].Goal)
@@ -351,6 +351,16 @@ func (vc *VC) Discharge(obls []*Obligation, workDir string, quickMs, slowMs int)
 				sf := fmt.Sprintf("%s.grp%d.smt2", base, idxs[0])
 				if err := os.WriteFile(sf, []byte(vc.Standalone(comb, false)), 0o644); err == nil {
 					r := runSolver(context.Background(), solvers[0], sf, quickMs, true, time.Duration(quickMs*3+3000)*time.Millisecond)
+					if vc.crossCheck && r.err == nil && len(r.lines) > 0 && r.lines[0] == "unsat" {
+						// thorough tier: the other two solvers must not contradict the grouped proof
+						for _, sv := range solvers[1:] {
+							rr := runSolver(context.Background(), sv, sf, quickMs, false, time.Duration(quickMs+3000)*time.Millisecond)
+							if rr.err == nil && len(rr.lines) > 0 && rr.lines[0] == "sat" {
+								setErr(fmt.Errorf("%s group at %d: solvers disagree (z3-new unsat, %s sat; script %s)", vc.key, idxs[0], sv.name, sf))
+								return
+							}
+						}
+					}
 					os.Remove(sf)
 					if r.err == nil && len(r.lines) > 0 && r.lines[0] == "unsat" {
 						per := r.dur.Milliseconds() / int64(len(idxs))
